@@ -1287,7 +1287,7 @@ class Translator:
                     return 'VEC_CLEAR(%s)' % o
                 if name in ('data', 'c_str') and not args:
                     return 'VEC_DATA(%s)' % o
-                if name == 'substr' and fam in ('std::basic_string', 'std::basic_string_view'):
+                if name == 'substr' and fam in ('std::basic_string', 'std::basic_string_view') and is_vec:
                     real_args = [a for a in args if a.get('kind') != 'CXXDefaultArgExpr']
                     self.helpers.add('v_substr')
                     if len(real_args) == 1:
